@@ -40,12 +40,13 @@ struct Buf
 {
     std::vector<a_real> v;
     size_t n;
-    explicit Buf(size_t k) : v(k + 2 * PAD, (a_real)GUARD), n(k) { for (size_t i = 0; i < n; ++i) { v[PAD + i] = (a_real)(55.5 + (double)i); } }
+    static a_real gv(size_t i) { return (a_real)(GUARD - (double)i); } // guard cells differ from one another (a shifted copy of guards onto guards must show)
+    explicit Buf(size_t k) : v(k + 2 * PAD, (a_real)GUARD), n(k) { for (size_t i = 0; i < n; ++i) { v[PAD + i] = (a_real)(55.5 + (double)i); } for (size_t i = 0; i < (size_t)PAD; ++i) { v[i] = gv(i); v[PAD + n + i] = gv(PAD + i); } }
     a_real *p() { return v.data() + PAD; }
     const a_real *p() const { return v.data() + PAD; }
     bool ok() const
     {
-        for (int i = 0; i < PAD; ++i) { if (v[(size_t)i] != (a_real)GUARD || v[PAD + n + (size_t)i] != (a_real)GUARD) { return false; } }
+        for (int i = 0; i < PAD; ++i) { if (v[(size_t)i] != gv((size_t)i) || v[PAD + n + (size_t)i] != gv((size_t)(PAD + i))) { return false; } }
         return true;
     }
 };
